@@ -34,7 +34,7 @@ pub mod error {
 
 // Rc<XmlItem>: a handle on an item of the same document: the item's id and WHICH allocation the handle is (the DOM layer
 // wraps an item in a fresh Rc for every call; Context::node(id) resolves ids through Weak pointers to one allocation)
-pub struct ItemRef { pub ident: usize, pub alloc: Ghost<int> }
+pub struct ItemRef { pub ident: usize, pub alloc: Ghost<int>, pub subtree: Ghost<Seq<usize>> }   // subtree: ids of the item and everything below it, in document order
 impl ItemRef {
     pub fn id(&self) -> (r: usize) ensures r == self.ident { self.ident }
 }
@@ -44,6 +44,18 @@ impl Clone for ItemRef {
 }
 
 pub open spec fn without_id(s: Seq<usize>, x: usize) -> Seq<usize> { s.filter(|v: usize| v != x) }
+// the order vector with the ids of `block` taken out and put back, contiguously, directly after / before `anchor`
+pub open spec fn without_block(s: Seq<usize>, block: Seq<usize>) -> Seq<usize> { s.filter(|v: usize| !block.contains(v)) }
+pub open spec fn placed_after(s: Seq<usize>, anchor: usize, block: Seq<usize>) -> Seq<usize> {
+    let rest = without_block(s, block);
+    let k = rest.index_of(anchor);
+    rest.subrange(0, k + 1) + block + rest.subrange(k + 1, rest.len() as int)
+}
+pub open spec fn placed_before(s: Seq<usize>, anchor: usize, block: Seq<usize>) -> Seq<usize> {
+    let rest = without_block(s, block);
+    let k = rest.index_of(anchor);
+    rest.subrange(0, k) + block + rest.subrange(k, rest.len() as int)
+}
 pub open spec fn index_of_id(s: Seq<usize>, x: usize) -> int { s.index_of(x) }
 
 // a node with children, seen from its trait defaults
@@ -52,6 +64,7 @@ pub struct Parent {
     pub children: Ghost<Seq<usize>>,   // ids of the child list
     pub order: Ghost<Seq<usize>>,      // the document's order vector (ids), shared through the Context
     pub registered: Ghost<Map<usize, int>>,   // Context.id_map: which allocation an id resolves to (shared through the Context)
+    pub last_desc: Ghost<usize>,       // id of the last item, in document order, of this node's subtree (itself if it has nothing below)
 }
 
 impl Parent {
@@ -73,8 +86,10 @@ impl Parent {
                 r is Some ==> r->Some_0.ident == self.children@[index as int],
     { unimplemented!() }
 
+    // verified for XmlElement / XmlDocument below (prim): the LAST DESCENDANT (or the last attribute, or the node itself)
     #[verifier::external_body]
     pub fn last_child_or_self_id(&self) -> (r: usize)
+        ensures r == self.last_desc@,
     { unimplemented!() }
 
     // removes the child with that id from the child list (the order vector is not its business)
@@ -90,6 +105,7 @@ impl Parent {
     #[verifier::external_body]
     pub fn insert_by_id(&mut self, value: ItemRef, id: Option<usize>) -> (r: error::Result<ItemRef>)
         ensures final(self).order@ == old(self).order@, final(self).ident == old(self).ident, final(self).registered@ == old(self).registered@,
+                final(self).last_desc@ == old(self).last_desc@,
                 r is Err ==> final(self).children@ == old(self).children@,
                 r is Ok ==> r->Ok_0 == value && final(self).children@.contains(value.ident),
     { unimplemented!() }
@@ -100,13 +116,35 @@ impl Parent {
     pub fn order_set_after(&mut self, value: &ItemRef, id: usize) -> (r: Option<usize>)
         ensures final(self).children@ == old(self).children@, final(self).ident == old(self).ident, final(self).registered@ == old(self).registered@,
                 r is None ==> final(self).order@ == old(self).order@,
-                r is Some ==> final(self).order@.contains(value.ident),
+                r is Some <==> (old(self).order@.contains(id) && id != value.ident),
+                r is Some ==> final(self).order@ == placed_after(old(self).order@, id, seq![value.ident]),
+                final(self).last_desc@ == old(self).last_desc@,
     { unimplemented!() }
     #[verifier::external_body]
     pub fn order_set_before(&mut self, value: &ItemRef, id: usize) -> (r: Option<usize>)
         ensures final(self).children@ == old(self).children@, final(self).ident == old(self).ident, final(self).registered@ == old(self).registered@,
                 r is None ==> final(self).order@ == old(self).order@,
-                r is Some ==> final(self).order@.contains(value.ident),
+                r is Some <==> (old(self).order@.contains(id) && id != value.ident),
+                r is Some ==> final(self).order@ == placed_before(old(self).order@, id, seq![value.ident]),
+                final(self).last_desc@ == old(self).last_desc@,
+    { unimplemented!() }
+    // value.place_subtree_after(id) / place_subtree_before(id): the item AND everything below it get consecutive keys next
+    // to `id` (XmlItem methods walking the live subtree: assumed callees, exercised by the edit-history replay grids)
+    #[verifier::external_body]
+    pub fn order_place_subtree_after(&mut self, value: &ItemRef, id: usize) -> (r: Option<usize>)
+        ensures final(self).children@ == old(self).children@, final(self).ident == old(self).ident, final(self).registered@ == old(self).registered@,
+                final(self).last_desc@ == old(self).last_desc@,
+                r is None ==> final(self).order@ == old(self).order@,
+                r is Some <==> (old(self).order@.contains(id) && !value.subtree@.contains(id)),
+                r is Some ==> final(self).order@ == placed_after(old(self).order@, id, value.subtree@),
+    { unimplemented!() }
+    #[verifier::external_body]
+    pub fn order_place_subtree_before(&mut self, value: &ItemRef, id: usize) -> (r: Option<usize>)
+        ensures final(self).children@ == old(self).children@, final(self).ident == old(self).ident, final(self).registered@ == old(self).registered@,
+                final(self).last_desc@ == old(self).last_desc@,
+                r is None ==> final(self).order@ == old(self).order@,
+                r is Some <==> (old(self).order@.contains(id) && !value.subtree@.contains(id)),
+                r is Some ==> final(self).order@ == placed_before(old(self).order@, id, value.subtree@),
     { unimplemented!() }
     #[verifier::external_body]
     pub fn order_clear(&mut self, value: &ItemRef)
@@ -118,7 +156,7 @@ impl Parent {
     #[verifier::external_body]
     pub fn ctx_register(&mut self, value: &ItemRef)
         ensures final(self).children@ == old(self).children@, final(self).ident == old(self).ident, final(self).order@ == old(self).order@,
-                final(self).registered@ == old(self).registered@.insert(value.ident, value.alloc@),
+                final(self).registered@ == old(self).registered@.insert(value.ident, value.alloc@), final(self).last_desc@ == old(self).last_desc@,
     { unimplemented!() }
 
     //@@ append
@@ -146,8 +184,19 @@ pub mod prim {
         DocumentType(usize), Element(usize), Entity(usize), Namespace(usize), Notation(usize), PI(usize), Text(usize),
         Unexpanded(usize), Unparsed(usize),
     }
-    pub struct ItemRef { pub ident: usize, pub item: XmlItem }
+    // subtree: ids of the item and everything below it (attributes before children), in document order; key: its cached order key
+    pub struct ItemRef { pub ident: usize, pub item: XmlItem, pub subtree: Ghost<Seq<usize>>, pub key: Ghost<usize> }
     impl ItemRef {
+        pub open spec fn wf(self) -> bool { self.subtree@.len() > 0 && self.subtree@[0] == self.ident }
+        // XmlItem::last_descendant_or_self_id: walks the live subtree (assumed callee)
+        #[verifier::external_body]
+        pub fn last_descendant_or_self_id(&self) -> (r: usize)
+            ensures r == self.subtree@.last(),
+        { unimplemented!() }
+        #[verifier::external_body]
+        pub fn order(&self) -> (r: usize)
+            ensures r == self.key@,
+        { unimplemented!() }
         pub fn id(&self) -> (r: usize) ensures r == self.ident { self.ident }
         pub fn item(&self) -> (r: &XmlItem) ensures *r == self.item { &self.item }
     }
@@ -203,7 +252,31 @@ pub mod prim {
     pub struct XmlElement {
         pub ident: usize,
         pub children: Vec<ItemRef>,
+        pub attributes: Vec<ItemRef>,
         pub parent_of: Ghost<Map<usize, Option<usize>>>,
+        pub order: Ghost<Seq<usize>>,   // the document's order vector (shared through the Context)
+    }
+    // self.children.borrow().iter().last() / self.attributes.iter().max_by_key(|v| v.order())
+    #[verifier::external_body]
+    pub fn shim_last<'a>(v: &'a Vec<ItemRef>) -> (r: Option<&'a ItemRef>)
+        ensures r is Some <==> v@.len() > 0, r is Some ==> *r->Some_0 == v@.last(),
+    { v.iter().last() }
+    pub open spec fn is_max_key(v: Seq<ItemRef>, x: ItemRef) -> bool {
+        v.contains(x) && (forall|i: int| 0 <= i < v.len() ==> #[trigger] v[i].key@ <= x.key@)
+    }
+    #[verifier::external_body]
+    pub fn shim_max_by_order<'a>(v: &'a Vec<ItemRef>) -> (r: Option<&'a ItemRef>)
+        ensures r is Some <==> v@.len() > 0, r is Some ==> is_max_key(v@, *r->Some_0),
+    { unimplemented!() /* v.iter().max_by_key(|v| v.order()) */ }
+    // the id after which a new child (resp. a new attribute) of an element belongs in document order
+    pub open spec fn child_anchor(e: XmlElement, a: usize) -> bool {
+        if e.children@.len() > 0 { a == e.children@.last().subtree@.last() }
+        else if e.attributes@.len() > 0 { exists|x: ItemRef| is_max_key(e.attributes@, x) && a == x.subtree@.last() }
+        else { a == e.ident }
+    }
+    pub open spec fn attribute_anchor(e: XmlElement, a: usize) -> bool {
+        if e.attributes@.len() > 0 { exists|x: ItemRef| is_max_key(e.attributes@, x) && a == x.subtree@.last() }
+        else { a == e.ident }
     }
     pub struct XmlAttribute {
         pub ident: usize,
@@ -239,6 +312,27 @@ pub mod prim {
         pub fn world_parent_id(&self, value: &ItemRef) -> (r: Option<usize>)
             ensures r == (if self.parent_of@.dom().contains(value.ident) { self.parent_of@[value.ident] } else { None::<usize> }),
         { unimplemented!() }
+
+        // attr.init_order_recursive(): numbers the item and everything below it at the END of the order vector
+        #[verifier::external_body]
+        pub fn world_init_order_recursive(&mut self, value: &ItemRef)
+            ensures final(self).ident == old(self).ident, final(self).children@ == old(self).children@, final(self).attributes@ == old(self).attributes@,
+                    final(self).parent_of@ == old(self).parent_of@,
+                    final(self).order@ == crate::without_block(old(self).order@, value.subtree@) + value.subtree@,
+        { unimplemented!() }
+        // attr.place_subtree_after(id): see HasChildren above
+        #[verifier::external_body]
+        pub fn world_place_subtree_after(&mut self, value: &ItemRef, id: usize) -> (r: Option<usize>)
+            ensures final(self).ident == old(self).ident, final(self).children@ == old(self).children@, final(self).attributes@ == old(self).attributes@,
+                    final(self).parent_of@ == old(self).parent_of@,
+                    r is Some <==> (old(self).order@.contains(id) && !value.subtree@.contains(id)),
+                    r is None ==> final(self).order@ == old(self).order@,
+                    r is Some ==> final(self).order@ == crate::placed_after(old(self).order@, id, value.subtree@),
+        { unimplemented!() }
+
+        //@@ element_last_child_or_self_id
+
+        //@@ element_append_attribute
 
         //@@ element_insert_by_id
 
@@ -279,6 +373,8 @@ pub mod prim {
         pub fn world_parent_id(&self, value: &ItemRef) -> (r: Option<usize>)
             ensures r == (if self.parent_of@.dom().contains(value.ident) { self.parent_of@[value.ident] } else { None::<usize> }),
         { unimplemented!() }
+
+        //@@ document_last_child_or_self_id
 
         //@@ document_insert_by_id
     }
@@ -324,6 +420,8 @@ R_MUT = Rule('R14', r'\(&self\b', '(&mut self', '&self of a method that mutates 
 R_RC = Rule('R11', r'Rc<XmlItem>', 'ItemRef', 'Rc<XmlItem> -> environment handle carrying the id (A4)')
 R_AFTER = Rule('R43', r'value\s*\.set_order_after\(id\)', 'self.order_set_after(&value, id)', 'the item edits the order vector of the SAME document: the shared state is made explicit on the receiver')
 R_BEFORE = Rule('R43', r'value\s*\.set_order_before\(id\)', 'self.order_set_before(&value, id)', 'same')
+R_PLA = Rule('R43', r'value\s*\.place_subtree_after\(id\)', 'self.order_place_subtree_after(&value, id)', 'the item renumbers its subtree in the SAME document order vector: made explicit on the receiver')
+R_PLB = Rule('R43', r'value\s*\.place_subtree_before\(id\)', 'self.order_place_subtree_before(&value, id)', 'same')
 R_REG = Rule('R43', r'self\.context\(\)\.register\(&value\);', 'self.ctx_register(&value);', 'Context::register on the shared id map: made explicit on the receiver')
 R_CLEAR = Rule('R43', r'v\.clear_order\(\);', 'self.order_clear(&v);', 'same')
 UNCHANGED = 'final(self).same_state(*old(self))'
@@ -333,18 +431,20 @@ def build():
     fns = {}
     P = ['C13']
     SR = [PUB, R_MUT, R_RC]
-    fns['append'] = Fn(FI, TR, 'append', props=P, sig_rules=SR, rules=[R_AFTER, R_REG], label='HasChildren::append (trait default)',
+    fns['append'] = Fn(FI, TR, 'append', props=P, sig_rules=SR, rules=[R_AFTER, R_PLA, R_REG], label='HasChildren::append (trait default)',
                        ensures=[('C13+C14:refused_call_changes_nothing', f'r is Err ==> {UNCHANGED}'),
                                 ('C13:accepted_child_is_in_the_list_and_numbered', 'r is Ok ==> final(self).children@.contains(value.ident)'),
-                                ('C12:the_listed_handle_is_the_one_the_id_resolves_to', 'r is Ok ==> final(self).registered@.dom().contains(value.ident) && final(self).registered@[value.ident] == value.alloc@')])
+                                ('C12:the_listed_handle_is_the_one_the_id_resolves_to', 'r is Ok ==> final(self).registered@.dom().contains(value.ident) && final(self).registered@[value.ident] == value.alloc@'),
+                                ('C14:whole_subtree_is_numbered_after_the_last_descendant', 'r is Ok && old(self).order@.contains(old(self).last_desc@) && !value.subtree@.contains(old(self).last_desc@) ==> final(self).order@ == placed_after(old(self).order@, old(self).last_desc@, value.subtree@)')])
     fns['delete'] = Fn(FI, TR, 'delete', props=P, sig_rules=SR, rules=[R_CLEAR], label='HasChildren::delete (trait default)',
                        ensures=[('C13:unknown_child_changes_nothing', f'r is None ==> {UNCHANGED}'),
                                 ('C13+C14:removed_child_loses_its_key', 'r is Some ==> final(self).children@ == without_id(old(self).children@, id) && final(self).order@ == without_id(old(self).order@, id)')])
-    fns['insert_before'] = Fn(FI, TR, 'insert_before', props=P, sig_rules=SR, rules=[R_BEFORE, R_REG], label='HasChildren::insert_before (trait default)',
+    fns['insert_before'] = Fn(FI, TR, 'insert_before', props=P, sig_rules=SR, rules=[R_BEFORE, R_PLB, R_REG], label='HasChildren::insert_before (trait default)',
                               ensures=[('C13+C14:refused_call_changes_nothing', f'r is Err ==> {UNCHANGED}'),
                                        ('C13:unknown_reference_is_refused', '!old(self).children@.contains(id) ==> r is Err'),
                                        ('C13:accepted_child_is_in_the_list_and_numbered', 'r is Ok ==> final(self).children@.contains(value.ident)'),
-                                       ('C12:the_listed_handle_is_the_one_the_id_resolves_to', 'r is Ok ==> final(self).registered@.dom().contains(value.ident) && final(self).registered@[value.ident] == value.alloc@')])
+                                       ('C12:the_listed_handle_is_the_one_the_id_resolves_to', 'r is Ok ==> final(self).registered@.dom().contains(value.ident) && final(self).registered@[value.ident] == value.alloc@'),
+                                       ('C14:whole_subtree_is_numbered_before_the_reference', 'r is Ok && old(self).order@.contains(id) && !value.subtree@.contains(id) ==> final(self).order@ == placed_before(old(self).order@, id, value.subtree@)')])
     fns['insert_after'] = Fn(FI, TR, 'insert_after', props=P, sig_rules=SR, label='HasChildren::insert_after (trait default)',
                              rules=[Rule('R28', r'child\.id\(\)', 'child.id()', 'unchanged')],
                              ensures=[('C13+C14:refused_call_changes_nothing', f'r is Err ==> {UNCHANGED}'),
@@ -390,6 +490,30 @@ def build():
         inject=[(r'let index = doc\.child_index\(id\)\.unwrap\(\);', 'proof { lemma_filter_keeps_items(old(doc).children@, value.ident, Some(id)); }', 'before'),
                 (r'doc\.children\.insert\(index, ', 'proof { assert(ids(doc.children@)[index as int] == value.ident); }'),
                 (r'doc\.children\.push\(', 'proof { assert(ids(doc.children@)[doc.children@.len() - 1] == value.ident); }')])
+    fns['element_last_child_or_self_id'] = Fn(
+        FI, 'impl HasChildren for XmlElement', 'last_child_or_self_id', props=['C14'], safety_props=['C14'], sig_rules=[PUB], label='XmlElement::last_child_or_self_id',
+        rules=[Rule('R46', r'self\.children\.borrow\(\)\.iter\(\)\.last\(\)', 'shim_last(&self.children)', 'RefCell borrow dropped (A4); iter().last() -> shim'),
+               Rule('R46', r'self\.attributes\.iter\(\)\.max_by_key\(\|v\| v\.order\(\)\)', 'shim_max_by_order(&self.attributes)', 'iter().max_by_key(order) -> shim: an element with the greatest key')],
+        requires=[('items_are_well_formed', 'forall|i: int| 0 <= i < self.children@.len() ==> (#[trigger] self.children@[i]).wf()'),
+                  ('attributes_are_well_formed', 'forall|i: int| 0 <= i < self.attributes@.len() ==> (#[trigger] self.attributes@[i]).wf()')],
+        ensures=[('C14:answers_the_last_item_of_the_subtree_in_document_order', 'child_anchor(*self, r)')])
+    fns['document_last_child_or_self_id'] = Fn(
+        FI, 'impl HasChildren for XmlDocument', 'last_child_or_self_id', props=['C14'], safety_props=['C14'], sig_rules=[PUB], label='XmlDocument::last_child_or_self_id',
+        rules=[Rule('R46', r'self\.children\.borrow\(\)\.iter\(\)\.last\(\)', 'shim_last(&self.children)', 'RefCell borrow dropped (A4); iter().last() -> shim')],
+        ensures=[('C14:answers_the_last_item_of_the_subtree_in_document_order',
+                  'r == (if self.children@.len() > 0 { self.children@.last().subtree@.last() } else { self.ident })')])
+    fns['element_append_attribute'] = Fn(
+        FI, 'impl XmlElement', 'append_attribute', props=['C14'], safety_props=['C14'], sig_rules=[PUB, Rule('R11', r'Rc<XmlItem>', 'ItemRef', 'Rc<XmlItem> -> environment handle (A4)')],
+        label='XmlElement::append_attribute',
+        rules=[Rule('R43', r'attr\.init_order_recursive\(\);', 'self.world_init_order_recursive(&attr);', 'the attribute is numbered in the SAME document order vector: made explicit on the receiver'),
+               Rule('R43', r'attr\.place_subtree_after\(id\);', 'self.world_place_subtree_after(&attr, id);', 'same'),
+               Rule('R46', r'self\.attributes\.iter\(\)\.max_by_key\(\|v\| v\.order\(\)\)', 'shim_max_by_order(&self.attributes)', 'iter().max_by_key(order) -> shim')],
+        requires=[('attributes_are_well_formed', 'forall|i: int| 0 <= i < old(self).attributes@.len() ==> (#[trigger] old(self).attributes@[i]).wf()'),
+                  ('the_element_is_numbered', 'old(self).order@.contains(old(self).ident)')],
+        ensures=[('C14:the_new_attribute_is_numbered_after_the_last_attribute_before_the_children',
+                  'exists|a: usize| attribute_anchor(*old(self), a) && (old(self).order@.contains(a) && !attr.subtree@.contains(a) ==> final(self).order@ == crate::placed_after(old(self).order@, a, attr.subtree@))'),
+                 ('listed', 'final(self).attributes@ == old(self).attributes@.push(attr)')],
+        inject=[(r'self\.world_place_subtree_after\(&attr, id\);', 'proof { assert(attribute_anchor(*old(self), id)); }', 'before optional')])
     fns['element_delete_by_id'] = Fn(
         FI, 'impl HasChildren for XmlElement', 'delete_by_id', props=['C12'], safety_props=['C12'], sig_rules=SRP, label='XmlElement::delete_by_id',
         rules=[Rule('R11', r'self\.children\.borrow_mut\(\)\.', 'self.children.', 'RefCell borrow dropped (A4)'),
